@@ -459,6 +459,13 @@ var cvxLinkTokens = []string{
 }
 
 var cvxFixed = []string{
+	// flush-insensitivity (op htmlf): where a consultation flush could show — a cut in front of a break flag, of trimmed trailing
+	// blanks, inside what the text writer reads as one unit (entity, backslash escape), next to delimiter runs and labels
+	"a \nb\n", "a  \nb\n", "a   \nb\n", "a \t\nb\n", "a\t \nb\n", "a \t \n", "a b  \nc d \ne\n", "a\\ b\n", "a\\\tb\n", "a \\nb\n", "a\\ \nb\n", "a \\  \nb\n",
+	"x &amp; y &#40; z &amp z & w &x; &#x28;(\n", "&am p; &amp ; & amp;\n", "a\\( b\\* c\\_ d\\~ e\\ f\n", "a (b) (c (d\n", "a ~b~ ~ c~\n", "*a * b* _a _ b_ **a ** b**\n",
+	"[a b](/u c) [a b]( /u ) [a b][c d]\n\n[c d]: /u\n", "![a b c](/u \"t u\") ![a *b* c](/u)\n", "`a b` `` a  b `` ` a\n b `\n", "<a b=\"c d\"> <!-- a b --> <http://a.bc/d e>\n",
+	"a b\n  c d\n\te f  \n g\n", "# a b # \n## c  d  ##\n", "a b\n===\nc d\n---\n", "- a b \n- c  \n  d \n", "> a b \n> c  \n", "a|b c \n-|-\nd e | f  g \n", "- [x] a b \n- [ ] (c d)\n", "a *b c\nd e* f \n", "a [b c\nd e](/u) f \n",
+	" a\n  b \n   c  \n", "a\u00a0b \u00a0\nc\n", "é è \nü ö\n", "a \r\nb  \r\nc\r\n",
 	// the escaped flag across a line end (repo fix 24c9f23): a backslash-ended line in front of a trigger at a line head
 	"a\\\n~b~\n", "a\\\n*b* ~~c~~\n", "- a\\\n  [x] y\n", "a\\\nwww.a.bc x\\\nhttp://d.ef\n", "a|b\n-|-\nc\\|d\\\n~e~|f\n", "a \\\n ~b~\n", "a\\  \n~b~\n", "a\\  \n*b* [c](/u)\n", "- a\\  \n  ~b~\n", "a\\\r\n~b~\n", "a\\   \nwww.a.bc\n", "a\\  \n\\~b~\n", "~a\\  \n\\~\n", "- a\\  \n  \\[x](/u) \\|\n", "a|b\\  \n-|-\n", "*a\\  \n\\*\n",
 	"www.commonmark.org\n", "Visit www.commonmark.org/help for more information.\n", "Visit www.commonmark.org.\n\nVisit www.commonmark.org/a.b.\n", "www.google.com/search?q=Markup+(business)\n\nwww.google.com/search?q=Markup+(business)))\n\n(www.google.com/search?q=Markup+(business))\n\n(www.google.com/search?q=Markup+(business)\n",
